@@ -97,7 +97,7 @@ def worker(ctx):
                     work.append((m, t, name, v))
                     res.case(True, t.text(), offset, name)  # an evaluation = one probe (type, pad width, probed leaf/value)
                     for it in ref.leaves(m, v):
-                        if it.path[0] in (2, 3, 4, 5, 6, 7, 8, 9, 10):
+                        if it.path[0] in (2, 3, 4, 5, 6, 7, 8, 9, 10, 12):
                             res.observe("cells", f"{t.text()}@{it.offset % 8}:{probes.position_of(it.path)}")
             # ---- Python runtime ---------------------------------------------
             mods = sut_py.PyModules(dstd, root)
